@@ -23,10 +23,15 @@ class Recorder:
     def __init__(self, now: Callable[[], float]) -> None:
         self.now = now
         self.events: list[dict[str, Any]] = []
+        self.limit = 60_000
+        self.overflow = False
         self.muted: set[str] = set()           # loops (operator incarnations) whose events are dropped (killed)
 
     def rec(self, ev: str, **f: Any) -> None:
         if f.get('loop') in self.muted and not ev.startswith('srv.'):
+            return
+        if len(self.events) >= self.limit:
+            self.overflow = True
             return
         t = self.now()
         e = {'seq': len(self.events) + 1, 't': int(t) if float(t).is_integer() else round(t, 6), 'ev': ev}
@@ -179,6 +184,7 @@ class Sim:
         self.world = World(seed=seed, wall_budget=wall_budget)
         self.recorder = Recorder(lambda: self.world.now)
         self.rec = self.recorder.rec
+        self.world.abort = lambda: ('more than %d events recorded: the operator does not come to rest' % self.recorder.limit) if self.recorder.overflow else None
         self.srv = FakeK8s(lambda: self.world.now, self.rec)
         vclock.install(self.world.clock)
         self._gen = 0
